@@ -63,8 +63,15 @@ class State:
         goal = goal.z if hasattr(goal, "z") else goal
         if isinstance(goal, bool):
             goal = z3.BoolVal(goal)
-        self.obls = self.obls + ((label, self.pc, goal, self.trace),)
+        o = (label, self.pc, goal, self.trace)
+        self.obls = self.obls + (o,)
+        # an obligation is owed from the moment it is raised: it is registered with the engine at once, so that it cannot be lost
+        # when the path that raised it is later cut (no feasible alternative, unrolling bound, unsupported construct further on)
+        if State.on_oblige is not None:
+            State.on_oblige(o, self.tags)
         return self
+
+    on_oblige = None
 
     # -- frames
     @property
